@@ -47,10 +47,37 @@ def rename_tree(target, tree, tmap, imap):
     return ren(target), ren(tree)
 
 
-def classify(text, formats, exc_name, retry):
+def branch_chain_recursion(exc):
+    """Whether a RecursionError was raised while recursing along ONE chain of `else if` arms (Branch
+    nodes nested in if_false): >= 80 % of the tensora frames of the traceback handle a Branch."""
+    if not isinstance(exc, RecursionError):
+        return False
+    tb = exc.__traceback__
+    branch = other = 0
+    while tb is not None:
+        co = tb.tb_frame.f_code
+        if os.sep + "tensora" + os.sep in co.co_filename:
+            if "branch" in co.co_name.lower():
+                branch += 1
+            else:
+                other += 1
+        tb = tb.tb_next
+    return branch >= 100 and branch >= 4 * other
+
+
+def classify(text, formats, exc_name, retry, exc=None):
     """Known-finding classifiers (mechanism: a syntactic predicate + a counterfactual replay)."""
     import re
 
+    if exc is not None and branch_chain_recursion(exc):
+        # mechanism: one `else if` arm per subset of co-iterated sparse references; with >= 9 references
+        # the chain is deeper than CPython's recursion limit.  Counterfactual: the same request with
+        # every operand dense (no merge lattice) is served.
+        target, tree = gen.parse(text)
+        n_refs = sum(len(v) for v in gen.tensors_of(tree).values())
+        dense = {n: "d" * len(taco.parse_fmt(f)[0]) for n, f in formats.items()}
+        if n_refs >= 9 and retry(text, dense):
+            return "else-if-chain-exceeds-recursion-limit"
     names = set(re.findall(r"[A-Za-z][A-Za-z0-9]*", text))
     if names & set(C_RESERVED):
         target, tree = gen.parse(text)
@@ -180,7 +207,7 @@ def one_request(rec, batch, text, formats, kinds, language, klass):
         def retry(t2, f2):
             return generate(t2, f2, kinds, language)[0] in ("code", "refused")
 
-        known = classify(text, formats, type(exc).__name__, retry)
+        known = classify(text, formats, type(exc).__name__, retry, exc)
         rec.violation(f"generation-raised:{type(exc).__name__}" + (":" + known if known else ""),
                       {"request": request, "error": str(exc)[:200]}, known)
         return
@@ -245,7 +272,7 @@ def cli_request(rec, text, formats, kinds, language, real=False):
         return generate(t2, f2, kinds, language)[0] in ("code", "refused")
 
     if tb or code not in (0, 1):
-        known = classify(text, formats, "cli", retry)
+        known = classify(text, formats, "cli", retry, exc)
         rec.violation("cli-traceback-or-bad-exit" + (":" + known if known else ""),
                       {"request": request, "exit": code, "exception": repr(exc)[:200], "stderr": (err or "")[-300:]}, known)
         return
@@ -350,6 +377,18 @@ def shard(rec, tier, index, n_shards):
                                   ("A(i,j) = B(i,j) + C(j,i)", {"A": "ss", "B": "ss", "C": "ss"})]:
                 cli_request(rec, real_text, fm, ("assemble", "compute"), "c", real=True)
             rec.sample({"assignment": "A(i,k) = B(i,j) * C(j,k)", "formats": {"A": "ds", "B": "d1s0", "C": "ss"}, "kinds": ["assemble", "compute"], "language": "c"})
+        # many co-iterated sparse operands: the kernel has one `else if` arm per subset of them
+        many = [(6, "+", "c"), (9, "+", "c"), (7, "*", "llvm"), (12, "*", "c")] if tier == "quick" else \
+               [(6, "+", "c"), (7, "+", "llvm"), (9, "+", "c"), (9, "+", "llvm"), (10, "+", "c"), (12, "*", "c"), (16, "*", "llvm")]
+        for k, (n_ops, op, lang) in enumerate(many):
+            if k % n_shards != (index + 5) % n_shards:
+                continue
+            names = [f"t{j}" for j in range(n_ops)]
+            text = "a(i) = " + f" {op} ".join(f"{x}(i)" for x in names)
+            fm = {"a": "s", **{x: "s" for x in names}}
+            one_request(rec, batch, text, fm, ("evaluate",), lang, "many-sparse-operands")
+            if n_ops == 9 and lang == "c":
+                cli_request(rec, text, fm, ("evaluate",), lang)
         # callable kernels: tensor_method raises only documented errors
         from tensora import tensor_method
         from tensora.compile import BroadcastTargetIndexError
